@@ -230,6 +230,16 @@ func fromGoD(x stick.Value, depth int) JV {
 		return numJV(float64(rv.Uint()))
 	case reflect.Float32:
 		return numJV(rv.Float())
+	case reflect.Slice, reflect.Array:
+		els := make([]JV, rv.Len())
+		for i := range els {
+			els[i] = fromGoD(rv.Index(i).Interface(), depth+1)
+		}
+		return JV{T: "arr", Els: &els}
+	case reflect.Ptr:
+		if rv.IsNil() {
+			return JV{T: "go", GoT: "nil " + tn}
+		}
 	}
 	return JV{T: "go", GoT: tn}
 }
